@@ -236,7 +236,11 @@ func runFanScenario(sc fanScenario) fanResult {
 		res.note += "close-timeout"
 	}
 	fn.Close()
-	<-consDone
+	select {
+	case <-consDone:
+	case <-time.After(5 * time.Second):
+		res.note += "events-not-closed"
+	}
 	for _, c := range conns {
 		var items []string
 		for _, w := range c.snapshotWrites() {
@@ -303,6 +307,9 @@ func genC11(r *rngT, n int, tier string) {
 		}
 		emit(fmt.Sprintf("fancheck %d %s %s", k, encPlan2(plan), strings.Join(obs, ";")), impl)
 		stat("op:fancheck")
+		if res.note != "" {
+			break // a stalled node: one failing scenario is enough
+		}
 	}
 }
 
@@ -349,5 +356,8 @@ func genC13(r *rngT, n int, tier string) {
 		emit(fmt.Sprintf("stallcheck %d %s %d %d %d %s %s %s", k, mode, victim, at, badIdx, encPlan2(sc.plan), strings.Join(obs, ";"), strings.Join(evs, ";")), impl)
 		stat("op:stallcheck")
 		stat("c13-" + mode)
+		if res.note != "" {
+			break // a stalled node: one failing scenario is enough
+		}
 	}
 }
